@@ -250,3 +250,19 @@ Theorem C01_nonvacuous_from_squares :
   wstones (abs q) = 16%N /\ wcaps (abs q) = 0%N /\ bstones (abs q) = 16%N /\ bcaps (abs q) = 0%N.
 Proof. exact ex_from_squares_wf. Qed.
 Print Assumptions C01_nonvacuous_from_squares.
+
+(* ================================================================================================================================
+   FromSquares under ANY configuration (wave 4, worker build4-symcfg; proof ImportCfg1.v): the import theorem C01_from_squares_wf
+   without the default-configuration restriction (custom piece counts, BlackWinsTies).
+   ================================================================================================================================ *)
+Require Import Rules Board Move GameOver Refine Preserve1 Tps TpsCfg Import1 ImportCfg1.
+Close Scope Z_scope. Close Scope N_scope.
+
+Theorem C01_from_squares_cfg_wf : forall n stones caps bwt board mv, fit_board n board ->
+  let q := from_squares_cfg gen_basis (N.of_nat n) stones caps bwt board mv in
+  pos_ok q /\ size q = N.of_nat n /\ Move.move q = mv /\ Move.black_wins_ties q = bwt /\
+  sq (abs q) = map (map piece_of) (concat board) /\
+  (whiteStones q, whiteCaps q, blackStones q, blackCaps q) = cfg_reserves n stones caps (pieces_of board) /\
+  (counts_fit_cfg n stones caps board -> abs q = cfg_apos n stones caps bwt board mv).
+Proof. exact from_squares_cfg_wf. Qed.
+Print Assumptions C01_from_squares_cfg_wf.
